@@ -185,7 +185,7 @@ def tolerance(op, ds, rows):
         else:
             arr = gen.col_array(col).astype(np.float64)
             sel = arr[rows] if len(rows) else arr[:0]
-            sel = sel[~np.isnan(sel)]
+            sel = sel[np.isfinite(sel)]  # infinities compare exactly
             n = max(len(sel), 1)
             u = 2.0**-24 if col["dtype"] == "float32" else 2.0**-53
             s1 = float(np.abs(sel).sum())
